@@ -176,15 +176,17 @@ def body(v, kind, L, W, rng=(2.0, 25.0, 25.0)):
     if kind == 'rect':
         # the generators need at least three rows at the maximum spacing (narrower lots raise by design)
         v.assume((bmx * 2 <= long_side) & (bmx * 2 <= short_side))
-        admits_count(v, long_side, bmin, bmx)
         dom, desc = D.rectangular(L, W, bmin, bmx)
         doms = [dom]
     else:
         bmy = v.real('b_max_y', lo, hi_max)
         v.assume(bmin <= bmy)
         v.assume((bmx * 2 <= L) & (bmy * 2 <= W))
-        admits_count(v, L, bmin, bmx)
-        admits_count(v, W, bmin, bmy)
+        if kind == 'bizoned':
+            # bi_rectangle_zoned_nested indexes an empty list when a spacing window admits no integer row count
+            # (degenerate input; the other generators return an empty candidate list, which is checked as such)
+            admits_count(v, L, bmin, bmx)
+            admits_count(v, W, bmin, bmy)
         if kind == 'birect':
             nested, desc = D.bi_rectangle_nested(L, W, bmin, bmx, bmy)
             doms = nested
